@@ -988,4 +988,97 @@ def r9(cx):
                          '(a failed assignment changed the variable)', loc=body.loc(t))
 
 
+# ---------------------------------------------------------------- added after wave-3 seeded changes
+SETVARS = 'yash_builtin::typeset::SetVariables'
+SETVARS_EXEC = 'yash_builtin::typeset::set_variables::<impl yash_builtin::typeset::SetVariables>::execute'
+SCOPE_FROM = 'yash_builtin::typeset::set_variables::<impl core::convert::From<yash_builtin::typeset::Scope> for yash_env::variable::Scope>::from'
+DECLARERS = [re.compile(r'^yash_env::Env::<S>::get_or_create_variable$'), VSET + '::get_or_new']
+EXEC_ERROR = 'yash_builtin::typeset::ExecuteError'
+
+
+@RS.rule('C16.R10', 'K-PASS', 'typeset / local / export / readonly declare EVERY variable operand in the requested scope: in SetVariables::execute an '
+         'operand reaches get_or_create_variable(name, self.scope.into()) or is reported as an error - no test of visibility, value or '
+         'attributes lets an operand skip its declaration')
+def r10(cx):
+    F = cx.F
+    body = F.inlined(SETVARS_EXEC)
+    cx.fn(SETVARS_EXEC)
+    du = Q.DefUse(body)
+    # the loop over the operands: Iterator::next on an iterator made from `self.variables`
+    loops = []
+    for blk, t in Q.find_calls(body, [re.compile(r'Iterator>?::next$')]):
+        src = Q.value_source(body, du, t['a'][0])
+        hops = 0
+        while src is not None and hops < 4 and not Q.callee_is(src, [re.compile(r'IntoIterator>?::into_iter$'),
+                                                                      re.compile(r'(Vec::<T, A>|slice::<impl \[T\]>)::(iter|iter_mut|drain)$')]):
+            src = Q.value_source(body, du, src['a'][0]) if src.get('a') else None      # adapters (enumerate, by_ref, ..)
+            hops += 1
+        if src is None or not src.get('a'):
+            continue
+        coll = _trace_place(du, src['a'][0])
+        if coll is not None and _projects(coll, SETVARS, 'variables'):
+            loops.append((blk, t))
+    cx.require(len(loops) == 1, 'SetVariables::execute: the loop `for field in self.variables` (Iterator::next on an iterator of '
+               'self.variables) was not found exactly once (found %d)' % len(loops))
+    nb, nt = loops[0]
+    item = nt['dest']['l']
+    starts, none_edges = set(), set()
+    for u in body.live_blocks():
+        ec = Q.edge_condition(F, body, du, u)
+        if not ec or ec[0]['k'] != 'discr' or ec[0]['pl'].get('p') or ec[0]['pl']['l'] != item:
+            continue
+        for tgt, labs in ec[1].items():
+            if ('variant', 'Some') in labs:
+                starts.add(tgt)
+            if ('variant', 'None') in labs and ('variant', 'Some') not in labs:
+                none_edges.add((u, tgt))
+    cx.require(starts, 'SetVariables::execute: the `Some(field)` edge of the operand loop was not found')
+    declares = Q.find_calls(body, DECLARERS)
+    errs = {b for b, j, s in Q.find_aggregates(body, EXEC_ERROR)}
+    cx.site('%s: operand loop at %s; %d declaring call(s); %d error-report site(s)' % (body.fn, body.loc(nt), len(declares), len(errs)))
+    if not declares:
+        cx.violation(SETVARS_EXEC, 'operand-never-declared', 'SetVariables::execute no longer calls get_or_create_variable / get_or_new: '
+                     '`typeset x` / `local x` / `export x` declare nothing', loc=body.loc(nt))
+        return
+    through = {b for b, t in declares} | errs
+    goals = {nb} | set(body.return_blocks())
+    for s in sorted(starts):
+        p = Q.shortest_path_flags(F, body, du, s, goals, removed=through, removed_edges=none_edges)
+        if p is not None:
+            cx.violation(SETVARS_EXEC, 'operand-skips-declaration', 'an operand of typeset / local / export / readonly can finish its loop '
+                         'iteration without being declared (get_or_create_variable in the requested scope) and without an error being '
+                         'reported: e.g. a bare `typeset x` in a function that is skipped because an outer x is visible creates no local, '
+                         'so a later `x=..` in the function overwrites the caller\'s / global x and survives the return',
+                         loc=body.loc(body.term(p[-2] if len(p) > 1 else p[0])), path=Q.render_path(body, p))
+            break
+    # the scope given to the declaring call is the requested one: self.scope converted by From<typeset::Scope>
+    for b, t in declares:
+        ok = False
+        o = du.origin(t['a'][2]) if len(t['a']) > 2 else {'k': '?'}
+        src = o['t'] if o['k'] == 'call' else None
+        if src is not None and Q.callee_is(src, [re.compile(r'convert::Into(<U>)?>?::into$'), re.compile(r'convert::From(<T>)?>?::from$'), SCOPE_FROM]):
+            pl = _trace_place(du, src['a'][0])
+            ok = pl is not None and _projects(pl, SETVARS, 'scope')
+        cx.site('%s: %s at %s; scope argument is self.scope.into(): %s' % (body.fn, pp.callee(t).split('::')[-1], body.loc(t), ok))
+        if not ok:
+            cx.violation(SETVARS_EXEC, 'scope-not-requested', 'the variable is not declared in the scope requested on the command line '
+                         '(self.scope converted to variable::Scope): `typeset x` in a function would not make a local, or `typeset -g x` '
+                         'would not reach the global', loc=body.loc(t))
+    # ... and the conversion keeps the variant
+    fb = F.body(SCOPE_FROM)
+    cx.fn(fb.fn)
+    fdu = Q.DefUse(fb)
+    got = {}
+    for b, j, s in Q.find_aggregates(fb, V + 'Scope'):
+        frm = {lab[1] for org, lab, e in Q.dominating_conditions(F, fb, fdu, b) if org['k'] == 'discr' and lab[0] == 'variant'}
+        got.setdefault(s['rv']['variant'], set()).update(frm or {'<unconditional>'})
+    cx.site('From<typeset::Scope> for variable::Scope: %s' % {k: sorted(v) for k, v in sorted(got.items())})
+    cx.cellcount(2)
+    if got != {'Local': {'Local'}, 'Global': {'Global'}}:
+        cx.violation(SCOPE_FROM, 'scope-table', 'typeset::Scope::Local must convert to variable::Scope::Local and Global to Global '
+                     '(found %s): `typeset x` in a function changes the global / `typeset -g x` makes a local'
+                     % {k: sorted(v) for k, v in sorted(got.items())}, loc='%s:%s' % (fb.file, fb.line))
+
+
 RS.explanation += ' Added later: ${x=w}, $((x=..)), for, read, getopts and cd assign with Scope::Global (R7); get_or_new never takes over an entry from below the target context (R8). With allexport, a read-only variable (whose assignment will fail) is not exported (R9).'
+RS.explanation += ' In SetVariables::execute (typeset / local / export / readonly) every operand is declared with get_or_create_variable(name, self.scope.into()) or reported as an ExecuteError: no path of the operand loop skips the declaration (R10).'
